@@ -120,12 +120,12 @@ def build_args(rng, cls, tier):
         n = 4 * rng.choice([0, 1, 2, 3, 16, 250] + ([16382] if big else []))
         return {'data': [rng.randrange(256) for _ in range(n)]}
     if cls == 'cm':
-        ln = lambda: rng.choice([0, 1, 2, 3, 4, 5, 6, 17, 100] + ([1000] if big else []))
+        ln = lambda: rng.choice([0, 1, 2, 3, 4, 5, 6, 17, 100, 253, 254, 255, 256, 300] + ([1000, 32000] if big else []))
         return {'desc': nonul(rng, ln()), 'serial': nonul(rng, ln()), 'hw': nonul(rng, ln()), 'sw': nonul(rng, ln()),
-                'vendor': [rng.randrange(256) for _ in range(rng.choice([0, 1, 2, 3, 300]))]}
+                'vendor': [rng.randrange(256) for _ in range(rng.choice([0, 1, 2, 3, 255, 256, 300, 700]))]}
     if cls == 'if':
-        return {'ids': [rng.randrange(256) for _ in range(rng.choice([0, 1, 2, 3, 4, 5, 255]))],
-                'vendor': [rng.randrange(256) for _ in range(rng.choice([0, 1, 2, 3, 200]))]}
+        return {'ids': [rng.randrange(256) for _ in range(rng.choice([0, 1, 2, 3, 4, 5, 255, 256, 257, 600]))],
+                'vendor': [rng.randrange(256) for _ in range(rng.choice([0, 1, 2, 3, 200, 256, 513]))]}
     raise ValueError(cls)
 
 
@@ -150,6 +150,18 @@ def builds(table, seed, tier, prefix='b'):
                     bg = bg[:26] + [0] * 10
                 if cls == 'if':
                     bg = bg[:36] + [0] * 4
+                if rng.random() < 0.6:
+                    # a prior header without bus-error flags and with enumerated fields in range: the result must be accepted
+                    if cls in ('can', 'canfd'):
+                        bg[0] &= 0xFC
+                        bg[1] = 0
+                        bg[12] = bg[13] = 0
+                    if cls == 'eth':
+                        bg[1] &= 0xC4
+                    if cls == 'lin':
+                        bg[1] = 0
+                    if cls == 'if':
+                        bg[29] = rng.randrange(3)
                 ops = [{'op': 'load', 'cls': cls, 'raw': fix_background(cls, bg)}]
             for _ in range(rng.choice([1, 2, 4, 6])):
                 if rng.random() < 0.5:
